@@ -13,6 +13,7 @@ import (
 	"github.com/git-lfs/git-lfs/v3/errors"
 	"github.com/git-lfs/git-lfs/v3/tools"
 	"github.com/git-lfs/git-lfs/v3/tr"
+	"github.com/git-lfs/git-lfs/v3/verifhook"
 	"github.com/rubyist/tracerx"
 )
 
@@ -246,6 +247,7 @@ func (a *basicDownloadAdapter) download(t *Transfer, cb ProgressCallback, authOk
 		return errors.Wrap(err, tr.Tr.Get("cannot write data to temporary file %q", dlfilename))
 	}
 
+	verifhook.Crash("dl.afterCopy")
 	if actual := hasher.Hash(); actual != t.Oid {
 		return errors.New(tr.Tr.Get("expected OID %s, got %s after %d bytes written", t.Oid, actual, written))
 	}
@@ -254,6 +256,7 @@ func (a *basicDownloadAdapter) download(t *Transfer, cb ProgressCallback, authOk
 		return errors.New(tr.Tr.Get("can't close temporary file %q: %v", dlfilename, err))
 	}
 
+	verifhook.Crash("dl.beforeFinalRename")
 	err = tools.RenameFileCopyPermissions(dlfilename, t.Path)
 	if _, err2 := os.Stat(t.Path); err2 == nil {
 		// Target file already exists, possibly was downloaded by other git-lfs process
